@@ -46,9 +46,9 @@ type AV struct {
 	Cell  ssa.Value
 	Path  string // for avCell: sub-object path below the allocation (".f2", "[1]", ...)
 	Tup   []AV
-	S     string      // avStr
-	Flds  map[int]AV  // avStruct: abstract values of the fields that are known
-	Tag   string      // free-form provenance tag set by rules; tags starting with "~" are inherited by values selected/loaded from this one
+	S     string     // avStr
+	Flds  map[int]AV // avStruct: abstract values of the fields that are known
+	Tag   string     // free-form provenance tag set by rules; tags starting with "~" are inherited by values selected/loaded from this one
 }
 
 // cellKey identifies a tracked memory cell: an allocation plus a path below it.
@@ -1126,7 +1126,9 @@ func (e *OrdEngine) flow(from, to *ssa.BasicBlock, f *Fact, fr *Frame, push func
 }
 
 // eofBranch recognises the branch form of the "EOF with a full transfer is success" idiom:
-//   n, err := f.WriteAt(...); if err != nil && !(err == io.EOF && n == len(buf)) { return err }
+//
+//	n, err := f.WriteAt(...); if err != nil && !(err == io.EOF && n == len(buf)) { return err }
+//
 // On the edge err == io.EOF (err being the failed error of event E) the candidate is noted; on a later edge
 // n == len(...) (n being result #0 of the same call) the failure is normalised to success, exactly like the
 // explicit `err = nil` form handled at the phi.
